@@ -1,6 +1,6 @@
 (* C14 — durability clauses: what is served is what is stored after every successful change, and a
    failed write leaves the served state alone.  Proved on the code as repaired by the fix commits
-   52967fc, 5702f33, fd69f18 in /repo (model/C14_Store.v mirrors it); the witnesses that refuted both
+   7f1a0f1, 0d04e9a, eebcdab in /repo (model/C14_Store.v mirrors it); the witnesses that refuted both
    statements on the tree before are kept as regression lemmas at the end. *)
 From Coq Require Import String Ascii.
 From PDV Require Import lib.Base lib.C14_AList model.C14_Store proof.C14_StoreProof.
